@@ -147,6 +147,20 @@ func c09(c *Ctx) {
 			infos = append(infos, reqInfo{m, -1, -1, ai})
 		}
 	}
+	// one completion answer whose items replace ranges with the same start and different ends
+	nBeforeMulti := len(ops)
+	multiAns := []PLoc{{uA + ".go", mA}, {uA + ".go", PRng{mA.SL, mA.SC, mA.SL, mA.SC}}, {uA + ".go", twoSeg}, {uA + ".go", PRng{twoSeg.SL, twoSeg.SC, twoSeg.SL, twoSeg.SC + 1}}}
+	var multiPos [2]int
+	for k := range tA.s2t {
+		multiPos = k
+		break
+	}
+	for k := range tA.s2t { // deterministic: the smallest mapped position
+		if k[0] < multiPos[0] || (k[0] == multiPos[0] && k[1] < multiPos[1]) {
+			multiPos = k
+		}
+	}
+	ops = append(ops, POp{Op: "req", Method: "Completion", URI: uA, Line: uint32(multiPos[0]), Char: uint32(multiPos[1]), Answer: multiAns, Detail: "\x1f\x1f\x1f"})
 	// the same questions after an edit that moves template text but leaves the generated code byte-identical
 	// (a blank line and a `-#` comment above the first dynamic line): the map in force must be the new one
 	docA2 := strings.Replace(docA, "\t%p= s\n", "\n\t-# note\n\t%p= s\n", 1)
@@ -170,10 +184,28 @@ func c09(c *Ctx) {
 		return
 	}
 	c.tieProxy([][]POp{ops}, [][][]PEvent{log})
+	// oracle for the multi-item completion: item k carries the template range of the k-th scripted range
+	{
+		reply := ""
+		for _, ev := range log[nBeforeMulti] {
+			if ev.Kind == "R" {
+				reply = strings.Join(ev.F, " ")
+			}
+		}
+		var want []string
+		for _, a := range multiAns {
+			want = append(want, prng(tA.mapRangeBack(a.R))+"+")
+		}
+		c.Rep.OracleCases++
+		if w := "Completion [" + strings.Join(want, ",") + "]"; reply != w {
+			c.fail("C09/Completion/multi-item-ranges", "completion items with different replace ranges: reply "+reply+", expected "+w,
+				map[string]any{"answers": multiAns, "events": rawEvents(log[nBeforeMulti]), "docA": docA})
+		}
+	}
 	for i, info := range infos {
 		evs := log[i+2]
 		if i >= nMain {
-			evs = log[i+3] // one change op precedes the second round
+			evs = log[i+4] // the multi-item completion and the change op precede the second round
 			tA = tA2
 		}
 		c.Rep.OracleCases++
